@@ -27,7 +27,16 @@ def _weight(rng, nrep):
     lay = []
     for r in range(nrep):
         n = int(rng.integers(8, 30))
-        lay.append(('W|r%d' % (r + 1), gen.make_idl(rng, str(rng.choice(['contig', 'strided', 'irregular', 'gapped'])), n)))
+        cls = str(rng.choice(['contig', 'strided', 'irregular', 'gapped', 'fakegrid']))
+        if cls == 'fakegrid':
+            # an irregular list that a cheap test takes for a grid: first spacing g, and last = first + g (n - 1), but not on the grid in between
+            g, f = int(rng.integers(2, 4)), int(rng.integers(1, 9))
+            il = [f + g * k for k in range(n)]
+            for k in rng.choice(np.arange(2, n - 1), size=max(1, n // 4), replace=False):
+                il[int(k)] += int(rng.integers(1, g))
+            lay.append(('W|r%d' % (r + 1), il))
+            continue
+        lay.append(('W|r%d' % (r + 1), gen.make_idl(rng, cls, n)))
     samples = [1.0 + 0.1 * rng.normal(size=len(idl)) for _, idl in lay]
     return pe.Obs(samples, [n for n, _ in lay], idl=[i for _, i in lay]), lay
 
@@ -141,7 +150,13 @@ def correlate_cases(rng, n, ctx):
         _, lay = _weight(rng, nrep)
         reps = list(range(nrep))
         a = _obs_on(rng, lay, reps, 'full')
-        bad = str(rng.choice(['none'] * 5 + ['idl', 'names', 'covobs', 'subset', 'interior', 'interior']))
+        bad = str(rng.choice(['none'] * 5 + ['idl', 'names', 'covobs', 'subset', 'interior', 'interior', 'fewer_replicas']))
+        if bad == 'fewer_replicas' and nrep < 2:
+            bad = 'names'
+        if bad == 'fewer_replicas':
+            # the partner lives on some of the replicas only: different chains, even though they overlap
+            keep = sorted(rng.choice(nrep, size=int(rng.integers(1, nrep)), replace=False).tolist())
+            b = _obs_on(rng, lay, keep, 'full')
         if bad == 'interior':
             # same replicas, same number of configurations, same first and last one - but another configuration in between
             lay2, done = [], False
@@ -157,7 +172,7 @@ def correlate_cases(rng, n, ctx):
                 bad = 'idl'
             else:
                 b = _obs_on(rng, lay2, reps, 'full')
-        if bad == 'interior':
+        if bad in ('interior', 'fewer_replicas'):
             pass
         elif bad == 'idl':
             b = _obs_on(rng, [(nm, [x + 1 for x in il]) for nm, il in lay], reps, 'full')
